@@ -380,7 +380,7 @@ func (bkt *Bucket) checkAndSet(ki *KeyInfo, v *Payload) error {
 				if v.Ver != 0 {
 					// sync script would be here, e.g. set_raw(k, v, rev=xxx)
 					verifPoint("bucket.cas.samevhash", ki.StringKey)
-					bkt.htree.set(ki, &v.Meta, pos)
+					bkt.htree.setMeta(ki, &v.Meta, pos)
 				}
 				return nil
 			}
